@@ -12,7 +12,7 @@ from harness import common, nnd_corr
 from harness.common import INF_KEY, fmt
 
 COQ_FILES = ["model/Base.v", "model/Rng.v", "model/Diversify.v", "proofs/ListAux.v", "proofs/C15Proofs.v", "proofs/C15Wiring.v"]
-SENTINELS = {"pynndescent/pynndescent_.py": ["diversify", "diversify_csr"],
+SENTINELS = {"pynndescent/pynndescent_.py": ["diversify", "diversify_csr", "NNDescent._init_search_graph"],
              "pynndescent/sparse.py": ["diversify", "diversify_csr"],
              "pynndescent/utils.py": ["tau_rand", "tau_rand_int"]}
 
